@@ -21,7 +21,6 @@ import (
 	"fmt"
 	"net"
 	"net/netip"
-	"reflect"
 	"runtime"
 	"sort"
 	"strings"
@@ -30,7 +29,6 @@ import (
 	"testing"
 	"testing/synctest"
 	"time"
-	"unsafe"
 
 	"github.com/daeuniverse/dae/common/consts"
 	"github.com/daeuniverse/dae/config"
@@ -106,9 +104,18 @@ func (c c08Cfg) opStr() string {
 	return fmt.Sprintf("opt=%s stale=%d max=%d fixed=%s", c08B(c.opt), c.stale, c.max, c.fixedStr())
 }
 
+// c08CbFail makes the CacheAccessCallback (BatchUpdateDomainRouting in production) fail
+var c08CbFail atomic.Bool
+
 func c08Option(cfg c08Cfg, log *logrus.Logger) *DnsControllerOption {
 	return &DnsControllerOption{
 		Log: log,
+		CacheAccessCallback: func(*DnsCache) error {
+			if c08CbFail.Load() {
+				return fmt.Errorf("domain routing map update failed")
+			}
+			return nil
+		},
 		// the shape of the callback in control_plane.go (dnsControllerOption), minus the routing matcher
 		NewCache: func(fqdn string, answers, ns, extra []dnsmessage.RR, deadline time.Time, originalDeadline time.Time) (*DnsCache, error) {
 			return &DnsCache{
@@ -263,7 +270,7 @@ func c08Fqdn(host string) string {
 func (w *c08World) ins(t int64, key, host string, qtype uint16, ttl int, ans, n, ns int) {
 	w.sleepUntil(t)
 	_, ipErr := netip.ParseAddr(strings.TrimSuffix(host, "."))
-	op := fmt.Sprintf("ins t=%d key=%s host=%s qtype=%d ttl=%d ans=%d n=%d ns=%d ip=%s", t, c08Hex(key), c08Hex(host), qtype, ttl, ans, n, ns, c08B(ipErr == nil))
+	op := fmt.Sprintf("ins t=%d key=%s host=%s qtype=%d ttl=%d ans=%d n=%d ns=%d ip=%s cb=%s", t, c08Hex(key), c08Hex(host), qtype, ttl, ans, n, ns, c08B(ipErr == nil), c08B(c08CbFail.Load()))
 	out := VRecover(func() string {
 		answers, nsec, extra := c08Records(c08Fqdn(host), qtype, 77, ans, n, ns)
 		var err error
@@ -273,6 +280,9 @@ func (w *c08World) ins(t int64, key, host string, qtype uint16, ttl int, ans, n,
 			err = w.c.UpdateDnsCacheTtlWithKey(key, host, qtype, answers, nsec, extra, ttl)
 		}
 		if err != nil {
+			if strings.Contains(err.Error(), "domain routing map update failed") {
+				return "err" // the callback's error is handed to the caller; the entry is published all the same
+			}
 			return "err:" + err.Error()
 		}
 		return "ok"
@@ -282,14 +292,14 @@ func (w *c08World) ins(t int64, key, host string, qtype uint16, ttl int, ans, n,
 
 // insn: NormalizeAndCacheDnsResp_ on an upstream reply (the call dialSend makes)
 func (w *c08World) insn(t int64, key, host string, qtype uint16, rttl uint32, ans, n, ns, rcode int) {
-	w.insnMsg(t, key, host, qtype, rttl, ans, n, ns, rcode, true, 1)
+	w.insnMsg(t, key, host, qtype, rttl, ans, n, ns, rcode, true, 1, dnsmessage.ClassINET)
 }
 
 // insnMsg: resp = the header's QR bit, nq = number of questions (0 or 1)
-func (w *c08World) insnMsg(t int64, key, host string, qtype uint16, rttl uint32, ans, n, ns, rcode int, resp bool, nq int) {
+func (w *c08World) insnMsg(t int64, key, host string, qtype uint16, rttl uint32, ans, n, ns, rcode int, resp bool, nq int, qclass uint16) {
 	w.sleepUntil(t)
 	_, ipErr := netip.ParseAddr(strings.TrimSuffix(host, "."))
-	op := fmt.Sprintf("insn t=%d key=%s host=%s qtype=%d rttl=%d ans=%d n=%d ns=%d rcode=%d ip=%s resp=%s nq=%d", t, c08Hex(key), c08Hex(host), qtype, rttl, ans, n, ns, rcode, c08B(ipErr == nil), c08B(resp), nq)
+	op := fmt.Sprintf("insn t=%d key=%s host=%s qtype=%d rttl=%d ans=%d n=%d ns=%d rcode=%d ip=%s resp=%s nq=%d", t, c08Hex(key), c08Hex(host), qtype, rttl, ans, n, ns, rcode, c08B(ipErr == nil), c08B(resp), nq) + fmt.Sprintf(" class=%d", qclass)
 	out := VRecover(func() string {
 		answers, nsec, extra := c08Records(c08Fqdn(host), qtype, rttl, ans, n, ns)
 		msg := &dnsmessage.Msg{
@@ -297,7 +307,7 @@ func (w *c08World) insnMsg(t int64, key, host string, qtype uint16, rttl uint32,
 			Answer: answers, Ns: nsec, Extra: extra,
 		}
 		if nq > 0 {
-			msg.Question = []dnsmessage.Question{{Name: host, Qtype: qtype, Qclass: dnsmessage.ClassINET}}
+			msg.Question = []dnsmessage.Question{{Name: host, Qtype: qtype, Qclass: qclass}}
 		}
 		if err := w.c.NormalizeAndCacheDnsResp_(msg, key); err != nil {
 			return "err:" + err.Error()
@@ -484,21 +494,11 @@ func (c c08Cfg) dnsSection() *config.Dns {
 func (w *c08World) c08NewPlane(d *config.Dns) (*ControlPlane, error) {
 	plane := &ControlPlane{log: w.log}
 	plane.ctx, plane.cancel = context.WithCancel(context.Background())
-	fixedDomainTtl, err := ParseFixedDomainTtl(d.FixedDomainTtl)
+	// c08ProductionRecordDNS = the statements of NewControlPlane between ParseFixedDomainTtl and
+	// NewDnsController, regenerated from control_plane.go by translators/c08dnscfg on every run
+	opt, err := c08ProductionRecordDNS(plane, d, nil)
 	if err != nil {
 		return nil, err
-	}
-	plane.dnsFixedDomainTtl = fixedDomainTtl
-	// the cache-behaviour fields of the control plane (set by name so that this harness also builds
-	// against a tree that does not have them)
-	c08SetField(plane, "dnsOptimisticCache", d.OptimisticCache)
-	c08SetField(plane, "dnsOptimisticCacheTtl", d.OptimisticCacheTtl)
-	c08SetField(plane, "dnsMaxCacheSize", d.MaxCacheSize)
-	c08SetField(plane, "dnsIpVersionPrefer", d.IpVersionPrefer)
-	opt := plane.dnsControllerOption()
-	if !c08HasField(plane, "dnsOptimisticCache") {
-		// older shape of NewControlPlane: the values are patched onto the freshly built option
-		opt.OptimisticCache, opt.OptimisticCacheTtl, opt.MaxCacheSize = d.OptimisticCache, d.OptimisticCacheTtl, d.MaxCacheSize
 	}
 	plane.dnsController, err = NewDnsController(nil, opt)
 	if err != nil {
@@ -506,18 +506,6 @@ func (w *c08World) c08NewPlane(d *config.Dns) (*ControlPlane, error) {
 	}
 	c08DetachCallbacks(plane.dnsController)
 	return plane, nil
-}
-
-func c08HasField(plane *ControlPlane, name string) bool {
-	return reflect.ValueOf(plane).Elem().FieldByName(name).IsValid()
-}
-
-func c08SetField(plane *ControlPlane, name string, val any) {
-	f := reflect.ValueOf(plane).Elem().FieldByName(name)
-	if !f.IsValid() {
-		return
-	}
-	reflect.NewAt(f.Type(), unsafe.Pointer(f.UnsafeAddr())).Elem().Set(reflect.ValueOf(val))
 }
 
 // c08DetachCallbacks replaces, in the runtime the production code installed, only the callbacks that
@@ -559,6 +547,7 @@ func (w *c08World) cpStart(cfg c08Cfg) {
 		}
 		w.plane, w.dnsConf, w.c = plane, d, plane.dnsController
 		w.tickBase = time.Now().UnixNano()
+		w.stats.Inc("dnscfg." + c08ProductionRecordDNSMode)
 		return "cfg " + w.cfgObserved()
 	})
 	w.st.Emit("cfg "+cfg.opStr(), out)
@@ -681,16 +670,22 @@ func (w *c08World) realKey(name string, qtype uint16, r c08Route) string {
 }
 
 func (w *c08World) keyOp(name string, qtype uint16, r c08Route) string {
+	return w.keyOpClass(name, qtype, dnsmessage.ClassINET, r)
+}
+
+// keyOpClass: the key HandleWithResponseWriter_ derives for a question (questionCacheKey + scope)
+func (w *c08World) keyOpClass(name string, qtype, qclass uint16, r c08Route) string {
 	detail := r.detail
 	if r.kind != "idx" {
 		detail = c08Hex(r.detail)
 	}
 	var k string
 	out := VRecover(func() string {
-		k = w.realKey(name, qtype, r)
+		base := c08QuestionKey(w.c, dnsmessage.Question{Name: name, Qtype: qtype, Qclass: qclass})
+		k = w.c.responseCacheKey(base, r.req, r.idx, r.up)
 		return fmt.Sprintf("key=%s base=%s", c08Hex(k), c08Hex(dnsCacheBaseKey(k)))
 	})
-	w.st.Emit(fmt.Sprintf("key name=%s qtype=%d route=%s detail=%s", c08Hex(name), qtype, r.kind, detail), out)
+	w.st.Emit(fmt.Sprintf("key name=%s qtype=%d route=%s detail=%s class=%d", c08Hex(name), qtype, r.kind, detail, qclass), out)
 	return k
 }
 
@@ -951,9 +946,14 @@ func c08History(t *testing.T, r *VRand, st *VStream, stats *VStats, log *logrus.
 					case 4:
 						nq = 0
 					}
-					w.insnMsg(now, key, host, sl.qtype, rttl, ansCounter, n, ns, rcode, resp, nq)
+					qclass := uint16(dnsmessage.ClassINET)
+					if r.Chance(0.03) {
+						qclass = []uint16{3, 4, 255}[r.Intn(3)] // a reply to a CH / HS / ANY-class question
+						stats.Inc("insert.reply_class_not_IN")
+					}
+					w.insnMsg(now, key, host, sl.qtype, rttl, ansCounter, n, ns, rcode, resp, nq, qclass)
 					stats.Inc("op.insn")
-					if rcode != 0 || !resp || nq == 0 {
+					if rcode != 0 || !resp || nq == 0 || qclass != dnsmessage.ClassINET {
 						stats.Inc("insert.not_cacheable_reply")
 						continue
 					}
@@ -974,7 +974,12 @@ func c08History(t *testing.T, r *VRand, st *VStream, stats *VStats, log *logrus.
 					if r.Chance(0.03) {
 						host = "192.0.2.7"
 					}
+					if !cp && r.Chance(0.04) {
+						c08CbFail.Store(true)
+						stats.Inc("insert.access_callback_fails")
+					}
 					w.ins(now, k, host, sl.qtype, int(ttl), ansCounter, n, ns)
+					c08CbFail.Store(false)
 					stats.Inc("op.ins")
 					if host != name {
 						continue
@@ -1021,6 +1026,13 @@ func c08History(t *testing.T, r *VRand, st *VStream, stats *VStats, log *logrus.
 				stats.Add("janitor.evicted", len(gone))
 			case x < 89:
 				w.selfRestore(cfg)
+			case x < 90 && cp:
+				// ReuseForReload with another configuration (production never does this: it reuses only
+				// with an identical dns{}); every background goroutine of the store must follow
+				cfg = c08RandCfg(r, stats)
+				w.reconf(cfg)
+				w.plane.dnsController, w.dnsConf = w.c, cfg.dnsSection()
+				stats.Inc("op.reconf_with_real_janitor")
 			case x < 93 && cp:
 				if r.Bool() {
 					cfg = c08RandCfg(r, stats) // dns{} edited: new controller, cache cloned
@@ -1195,6 +1207,58 @@ func c08RaceStream(t *testing.T, st *VStream, stats *VStats, log *logrus.Logger,
 		w.clook(time.Now().UnixNano(), key, name, 1, 8+i%9)
 		stats.Inc("race.rounds")
 	}
+	// Latch hammer: several goroutines look one stale entry up in a tight loop while the latch is
+	// released again and again (what the end of a refresh does).  Every release may be followed by
+	// exactly one needRefresh=true, however the lookups interleave.
+	name := "hammer.test"
+	key := w.realKey(name, 1, c08Routes()[0])
+	t0 := time.Now().UnixNano()
+	w.ins(t0, key, name, 1, 0, 77, 1, 0)
+	w.look(time.Now().UnixNano(), key, name, 1, false) // first request: latched
+	arms := rounds * 100
+	op := fmt.Sprintf("hammer t=%d key=%s arms=%d", time.Now().UnixNano(), c08Hex(key), arms)
+	out := VRecover(func() string {
+		v, ok := w.c.dnsCache.Load(key)
+		if !ok {
+			return "entry-missing"
+		}
+		entry := v.(*DnsCache)
+		var grants atomic.Int64
+		var stop atomic.Bool
+		var wg sync.WaitGroup
+		for g := 0; g < 6; g++ {
+			wg.Add(1)
+			go func() {
+				defer wg.Done()
+				msg := new(dnsmessage.Msg)
+				msg.SetQuestion(dnsmessage.Fqdn(name), 1)
+				for !stop.Load() {
+					if resp, nr := w.c.LookupDnsRespCache_(msg, key, false); resp != nil && nr {
+						grants.Add(1)
+					}
+				}
+			}()
+		}
+		dup := 0
+		for a := 0; a < arms; a++ {
+			before := grants.Load()
+			entry.MarkRefreshed()
+			for grants.Load() == before {
+				runtime.Gosched()
+			}
+			for spin := 0; spin < 200; spin++ { // let lookups that raced for this release finish
+				_ = grants.Load()
+			}
+			if grants.Load() != before+1 {
+				dup++
+			}
+		}
+		stop.Store(true)
+		wg.Wait()
+		return fmt.Sprintf("hammer releases=%d extra_refresh_requests=%d", arms, dup)
+	})
+	st.Emit(op, out)
+	stats.Add("race.latch_releases_hammered", arms)
 }
 
 // ---------------------------------------------------------------- the request path (HandleWithResponseWriter_)
@@ -1301,12 +1365,22 @@ func c08AskHistory(t *testing.T, r *VRand, st *VStream, stats *VStats, log *logr
 				up.rcode = 3
 			}
 			w.sleepUntil(now)
-			op := fmt.Sprintf("ask t=%d name=%s qtype=%d dst=%s rttl=%d ans=%d n=%d ns=%d rcode=%d", now, c08Hex(name), qtype, c08Hex(dst.String()), up.rttl, up.ans, up.n, up.ns, up.rcode)
-			res := VRecover(func() string {
-				before := up.calls.Load()
+			qclass := uint16(dnsmessage.ClassINET)
+			if r.Chance(0.1) {
+				qclass = dnsmessage.ClassCHAOS
+				stats.Inc("ask.class_CH")
+			}
+			g := 1
+			if r.Chance(0.12) {
+				g = r.Range(2, 4) // identical requests at the same instant: singleflight followers
+				stats.Inc("ask.simultaneous_identical_requests")
+			}
+			op := fmt.Sprintf("ask t=%d name=%s qtype=%d dst=%s rttl=%d ans=%d n=%d ns=%d rcode=%d class=%d g=%d", now, c08Hex(name), qtype, c08Hex(dst.String()), up.rttl, up.ans, up.n, up.ns, up.rcode, qclass, g)
+			one := func() string {
 				q := new(dnsmessage.Msg)
 				q.SetQuestion(dnsmessage.Fqdn(name), qtype)
 				q.Question[0].Name = dnsmessage.Fqdn(name) // keep the asker's letter case
+				q.Question[0].Qclass = qclass
 				wr := &c08Writer{}
 				req := &udpRequest{realSrc: netip.MustParseAddrPort("192.0.2.10:41000"), realDst: dst, routingResult: &bpfRoutingResult{}}
 				t0 := time.Now()
@@ -1314,9 +1388,6 @@ func c08AskHistory(t *testing.T, r *VRand, st *VStream, stats *VStats, log *logr
 					return "err:" + err.Error()
 				}
 				lat := time.Since(t0)
-				// a refresh started by this request finishes one round trip later
-				time.Sleep(time.Second - lat)
-				synctest.Wait()
 				m := wr.msg
 				if m == nil {
 					return "no-reply"
@@ -1346,7 +1417,32 @@ func c08AskHistory(t *testing.T, r *VRand, st *VStream, stats *VStats, log *logr
 				if m.Authoritative {
 					ttl = "up" // not from the cache: the TTLs are the upstream's business
 				}
-				return fmt.Sprintf("ask lat=%d fw=%d rcode=%d ans=%s n=%d ttl=%s", lat.Nanoseconds(), up.calls.Load()-before, m.Rcode, ansID, len(m.Answer), ttl)
+				if len(m.Question) != 1 || m.Question[0].Qclass != qclass || m.Question[0].Qtype != qtype {
+					return "reply-question-differs"
+				}
+				return fmt.Sprintf("lat=%d rcode=%d ans=%s n=%d ttl=%s", lat.Nanoseconds(), m.Rcode, ansID, len(m.Answer), ttl)
+			}
+			res := VRecover(func() string {
+				before := up.calls.Load()
+				replies := make([]string, g)
+				var wg sync.WaitGroup
+				for i := 0; i < g; i++ {
+					wg.Add(1)
+					go func() { defer wg.Done(); replies[i] = VRecover(one) }()
+				}
+				wg.Wait()
+				// a refresh started by this request finishes one round trip after it was asked
+				c08SleepUntil(now + c08Sec)
+				synctest.Wait()
+				sort.Strings(replies)
+				uniq := replies[:1]
+				for _, x := range replies[1:] {
+					if x != uniq[len(uniq)-1] {
+						uniq = append(uniq, x)
+					}
+				}
+				parts := strings.SplitN(strings.Join(uniq, " | "), " ", 2)
+				return fmt.Sprintf("ask %s fw=%d %s", parts[0], up.calls.Load()-before, parts[1])
 			})
 			now += c08Sec
 			st.Emit(op, res)
@@ -1434,7 +1530,11 @@ func c08KeyStream(r *VRand, w *c08World, n int) {
 			name = c08NameVariant(r, w.stats, c08BaseNames[r.Intn(len(c08BaseNames))])
 		}
 		qt := []uint16{1, 2, 5, 12, 15, 16, 28, 33, 65, 255, 0, 65535, 11, 128}[r.Intn(14)]
-		w.keyOp(name, qt, routes[r.Intn(len(routes))])
+		cls := []uint16{1, 1, 1, 3, 4, 255, 0, 254}[r.Intn(8)]
+		if cls != 1 {
+			w.stats.Inc("key.class_not_IN")
+		}
+		w.keyOpClass(name, qt, cls, routes[r.Intn(len(routes))])
 		w.stats.Inc("op.key")
 	}
 }
